@@ -152,3 +152,19 @@ Proof.
   vm_compute. split; [now left|]. split; [discriminate | intros _; discriminate].
 Qed.
 Print Assumptions C10_nested_refuted.
+
+(* The guards of C10_stage_failure_output / C10_output_old_or_new are satisfiable by a world
+   with two output files in different directories (the one of C10_example). *)
+Example C10_guards_satisfiable :
+  let w := mk_world false true
+             [ {| d_name := B "I"; d_reqs := [mk_req (B "I") out1] |};
+               {| d_name := B "J"; d_reqs := [mk_req (B "J") out2] |} ] user in
+  no_nested w /\ no_alias w.
+Proof.
+  cbv zeta. split.
+  - intros x y Hx Hy. vm_compute in Hx, Hy.
+    destruct Hx as [<-|[<-|[]]], Hy as [<-|[<-|[]]]; vm_compute; reflexivity.
+  - intros p1 q1 p2 q2 H1 H2. vm_compute in H1, H2.
+    destruct H1 as [H1|[H1|[]]], H2 as [H2|[H2|[]]];
+      injection H1 as <- <-; injection H2 as <- <-; vm_compute; split; intros E; try reflexivity; discriminate.
+Qed.
